@@ -369,6 +369,20 @@ def main(out_path: str):
     parts.append(list_s("definitionDataFields", [f.name for f in _dc.fields(xls2json_backends.DefinitionData)], "xls2json_backends.DefinitionData field names, in order"))
     parts.append(list_s("fileTypeOrder", [t.value for t in xls2json_backends.SupportedFileTypes.get_processors()], "SupportedFileTypes.get_processors() keys, in order"))
     parts.append(dict_ss("backendRegexSources", {n: getattr(xls2json_backends, n).pattern for n in dir(xls2json_backends) if isinstance(getattr(xls2json_backends, n), re.Pattern)}, "module-level regexes of xls2json_backends"))
+    # ---- C13 (Pyxv.Spell): header column sets per sheet, smart quotes, whitespace regex source
+    from pyxform.question import MultipleChoiceQuestion as _MCQ, Option as _Opt
+    from pyxform.survey import Survey as _Sv
+    from pyxform.entities.entity_declaration import EntityDeclaration as _ED
+
+    parts += [
+        set_s("headerColumnsSurvey", set(_MCQ.get_slot_names()), "set(MultipleChoiceQuestion.get_slot_names())"),
+        set_s("headerColumnsChoices", set(_Opt.get_slot_names()), "set(Option.get_slot_names())"),
+        set_s("headerColumnsSettings", set(_Sv.get_slot_names()), "set(Survey.get_slot_names())"),
+        set_s("headerColumnsEntities", {*_ED.get_slot_names(), *(i.value for i in constants.EntityColumns.value_list())},
+              "entities sheet header_columns"),
+        dict_ss("smartQuotes", x2j.SMART_QUOTES, "xls2json.SMART_QUOTES"),
+        str_c("reWhitespace", xls2json_backends.RE_WHITESPACE.pattern, "xls2json_backends.RE_WHITESPACE"),
+    ]
     parts.append("end Pyxv.Gen\n")
     # several slices may ask for the same table: keep the first definition of each name
     seen, uniq = set(), []
